@@ -17,6 +17,9 @@ pub struct Parser<'t> {
     pub events: Vec<Event>,
     diagnostics: Diagnostics,
     stuck_reported: Cell<bool>,
+    /// the condition of an `if` / `while` is being parsed and no delimiter has been opened
+    /// inside it: `c { }` is then the condition `c` and an empty body, not a struct literal
+    in_condition: Cell<bool>,
 }
 
 pub struct ParseResult {
@@ -113,7 +116,17 @@ impl<'t> Parser<'t> {
             events: Vec::new(),
             diagnostics: Diagnostics::new(),
             stuck_reported: Cell::new(false),
+            in_condition: Cell::new(false),
         }
+    }
+
+    pub fn in_condition(&self) -> bool {
+        self.in_condition.get()
+    }
+
+    /// Sets the flag and gives back what it was, for the caller to restore.
+    pub fn set_in_condition(&self, value: bool) -> bool {
+        self.in_condition.replace(value)
     }
 }
 
